@@ -60,9 +60,13 @@ func (s *c17Scenario) files() map[string]string {
 				// a failing entry followed by a valid one on the same line
 				fmt.Fprintf(&sb, "// goverter:extend NoSuchFunction Okay%s\n", c.name)
 			}
-			if c.fault == "location" || c.fault == "location2" {
+			if c.fault == "location" || c.fault == "location2" || c.fault == "location3" {
 				// fails only when the files are written: the output file is an existing directory / lies below a regular file
-				if c.fault == "location" {
+				if c.fault == "location3" {
+					// the regular file sits two levels above the output file
+					fmt.Fprintf(&sb, "// goverter:output:file ./plain%s.txt/deep/er/zz.go\n", strings.ToLower(c.name))
+					files[fmt.Sprintf("pk%d/plain%s.txt", p, strings.ToLower(c.name))] = "a regular file\n"
+				} else if c.fault == "location" {
 					fmt.Fprintf(&sb, "// goverter:output:file ./blocked%s\n", strings.ToLower(c.name))
 					files[fmt.Sprintf("pk%d/blocked%s/.keep", p, strings.ToLower(c.name))] = "keep\n"
 				} else {
@@ -146,7 +150,7 @@ func C17(e *core.Env) int {
 		label  string
 	}
 	var runs []run
-	stages := []string{"directive", "signature", "conversion", "render", "extend", "extend2", "location", "location2"}
+	stages := []string{"directive", "signature", "conversion", "render", "extend", "extend2", "location", "location2", "location3"}
 	priors := []string{"none", "current", "stale", "foreign"}
 	outs := []string{"", "", "own", "shared", "same", "deep"}
 	for si := 0; si < nScen; si++ {
